@@ -27,6 +27,7 @@ from . import sym
 from .sym import SInt, SBool, PathCtx, Infeasible, Unsupported, NeedConcrete, PathLimit, is_sym
 from .interp import Interp, Obj, PyRaise, ClassVal, FuncVal, BoundMethod, GenObj, OpaqueStr, Partial, Builtin
 from . import extern
+from . import loops as _loops
 from .extern import BA, BBytes, SStr, SymBytes
 
 REGISTRY = {}        # qualname -> Contract
@@ -537,6 +538,8 @@ def check_shape(interp, c: Contract, shape: Shape, timeout_ms=20000, max_paths=4
                 stats['infeasible'] += 1
             except PathLimit as e:
                 stats['bounded'] += 1
+            except _loops.PathDone:
+                _record_side(ctx, clauses, stats, None)
             except (Unsupported, NeedConcrete) as e:
                 stats['unsupported'].append(f'{type(e).__name__}: {e}')
             except RecursionError as e:
@@ -632,13 +635,7 @@ def _one_path(interp, c, fn, shape, ctx, clauses, stats):
             goals.items.append(item)
     # ---- discharge
     stats['cover'] += 1
-    for (name, r, m) in ctx.side_obligations:
-        cr = clauses.setdefault(name, ClauseResult())
-        cr.paths += 1
-        if r == 'sat':
-            cr.sat.append((stats['paths'], _concretize(S1, m), 'precondition of callee not established'))
-        else:
-            cr.unknown += 1
+    _record_side(ctx, clauses, stats, S1)
     for item in goals.items:
         label, g = item[0], item[1]
         detail = item[2] if len(item) > 2 else ''
@@ -657,6 +654,20 @@ def _one_path(interp, c, fn, shape, ctx, clauses, stats):
             cr.unknown += 1
     if ctx.bounded:
         stats['bounded'] += 1
+
+
+def _record_side(ctx, clauses, stats, S1):
+    for (name, r, m) in ctx.side_obligations:
+        cr = clauses.setdefault(name, ClauseResult())
+        cr.paths += 1
+        if r == 'unsat':
+            cr.unsat += 1
+        elif r == 'sat':
+            vals = _concretize(S1, m) if (S1 is not None and m is not None) else {'__error__': 'no model for a side obligation'}
+            cr.sat.append((stats['paths'], vals, name))
+        else:
+            cr.unknown += 1
+    ctx.side_obligations = []
 
 
 def _concretize(S, m):
